@@ -143,6 +143,11 @@ def module_devs(tkey, seed=0, spikes="all", opt8="all"):
             if spikes == "all" and i in (0, length - 1):
                 devs.append({"k": "elem", "p": path, "i": i, "v": lo})
                 devs.append({"k": "elem", "p": path, "i": i, "v": (lo + hi) // 2})
+        # tables whose ELEMENT TYPE (unsigned 16 bit) is wider than the range the program uses: any content "within the
+        # element type" is stored as it is
+        if (t.type, path) in (("MultiCtl", "curve"), ("SpectraVoice", "harmonic_freqs")):
+            for i, v in ((0, 0xFFFF), (1, 0x8001), (length - 1, 0xFFFF)):
+                devs.append({"k": "elem", "p": path, "i": i, "v": v})
     if t.type == "Vorbis player":
         for v in (b"", b"\0", b"OggS" + bytes(range(256)), b"\xff" * 1000, b"OggS" + bytes(65532), bytes(range(256)) * 257):
             devs.append({"k": "attr", "n": "data", "v": v})
